@@ -51,6 +51,35 @@ def handbuilt(tier, seed):
     return out, cnt
 
 
+MEMOPS = {"MLOAD", "MSTORE", "MSTORE8", "SLOAD", "SSTORE", "KECCAK256"}
+
+
+def oracle_refinement(tier, seed):
+    """(M) spec/SFSRefine.tla: the oracle of this check (SFSMachine: which sequences realize a specification) against the oracle of
+    C02 (SFSDenote: what a specification means) on hand-built specifications with at least two memory / storage operations:
+    every sequence the machine accepts, executed concretely, must give a result some admissible schedule of the denotation gives"""
+    import denote
+    pool2 = [js for _, js in sfsgen.generate(2, 2, 2)
+             if sum(1 for u in js["user_instrs"] if u["disasm"] in MEMOPS) >= 2 and any(u["storage"] for u in js["user_instrs"])]
+    sel = corpus.sample(pool2, 150 if tier == "quick" else 1500, seed)
+    if tier != "quick":
+        p3 = [js for _, js in sfsgen.generate(1, 3, 1, simulate=(400, 5), seed=seed + 3)
+              if sum(1 for u in js["user_instrs"] if u["disasm"] in MEMOPS) >= 2 and any(u["storage"] for u in js["user_instrs"])]
+        sel += corpus.sample(p3, 400, seed)
+    v, goals, st, fin = denote.run_refine(sel, pick=6 if tier == "quick" else 10, timeout=600 if tier == "quick" else 2400)
+    if v:
+        k = sorted(v)[0]
+        raise common.MachineryError("the two oracles disagree: SFSMachine accepts a sequence for %s whose concrete result no schedule of "
+                                    "SFSDenote produces (%r)" % (sel[k - 1]["_shape"], v[k][:2]))
+    if sel and not goals:
+        raise common.MachineryError("vacuity guard: SFSRefine reached no goal state")
+    return {"specifications": len(sel), "finished": len(fin), "with_goal": len(goals), "goal_states_checked": sum(goals.values()),
+            "not_load_store_ordered": st.get("unordered", 0), "states": st["states"], "transitions": st["transitions"],
+            "budget_exceeded_shards": st["timeouts"], "tlc_wall_s": round(st["wall"], 1),
+            "rule": "hand-built specifications with >= 2 memory/storage operations; all sequences of SFSMachine within length n + 4, executed "
+                    "on the concrete machine; result must be in the set of results of the admissible schedules of SFSDenote"}
+
+
 def run(tier):
     t0 = time.time()
     seed = common.seed()
@@ -63,6 +92,7 @@ def run(tier):
         cases.append({"id": len(cases) + 1, "sfs": r["sfs"], "ids": sfsproj.proj_ids(r["ids"]), "maxlen": 0, "maxstack": 0,
                       "_raw": r["raw"], "_ids": r["ids"], "_opt": r["opt"], "_block": r["block"]})
     hb, hcnt = handbuilt(tier, seed)
+    refine = oracle_refinement(tier, seed)
     for js, ids in hb:
         cases.append({"id": len(cases) + 1, "sfs": sfsproj.proj_sfs(js), "ids": sfsproj.proj_ids(ids), "maxlen": 0, "maxstack": 0,
                       "_raw": {k: v for k, v in js.items() if not k.startswith("_")}, "_ids": ids, "_opt": "hand-built", "_block": "hand-built: " + js["_shape"]})
@@ -74,7 +104,8 @@ def run(tier):
     nontrivial = sum(1 for c in cases if len(c["ids"]) >= 2)
     if cnt["with_store"] == 0 or nontrivial == 0:
         raise common.MachineryError("vacuity guard: no non-trivial greedy sequence with a store was validated")
-    cov = {"states": st["states"], "transitions": st["transitions"], "traces_validated_against_impl": len(cases),
+    cov = {"states": st["states"] + refine["states"], "transitions": st["transitions"] + refine["transitions"], "oracle_refinement": refine,
+           "traces_validated_against_impl": len(cases),
            "samples": [{"block": c["_block"], "ids": c["_ids"], "tgt": c["sfs"]["tgt"], "deps": c["sfs"]["deps"]}
                        for c in cases[:2] + cases[-2:]],
            "evaluations": cnt["specs"], "distinct_nontrivial": nontrivial,
